@@ -10,6 +10,7 @@ import PhysisModel.Proofs.HavokBits
 import PhysisModel.Proofs.HavokExtract
 import PhysisModel.Proofs.HavokFlat
 import PhysisModel.Proofs.Sklb
+import PhysisModel.Proofs.BinrwTieAux
 /-!
 # C16 — auxiliary asset decoders return the stored records
 Property theorems only; helper lemmas live in `Proofs/`.
@@ -535,5 +536,21 @@ example : ∃ file, Spec.Pbd.encodePlaced exampleMixed examplePlacement = some f
     rw [this] at hb
     injection hb with hb
     rw [← hb]; rfl
+
+end Physis.C16
+
+/-! ### T4: binrw declarations regenerated from the source
+
+`Generated/BinrwAux.lean` is re-translated from the `#[binrw]` declarations of `src/cmp.rs` (and
+`src/tera.rs`, not tied yet) on every run (`lib/binrw2lean.py`); `Cmp.readRow` is `Layout.read` of the
+regenerated `RacialScalingParameters` descriptor (14 × f32, little-endian by the struct's own attribute —
+the ambient `.big` in the statement is deliberately the wrong one) followed by a pure projection
+(`Proofs/BinrwTieAux.lean`), for all inputs. -/
+namespace Physis.C16
+open Physis.Binrw Physis.Generated
+
+theorem c16_binrw_RacialScalingParameters (b : Bytes) :
+    Cmp.readRow b = via BinrwTie.Aux.rowOf (Layout.read .big BinrwAux.racialScalingParameters b) :=
+  BinrwTie.Aux.readRow_eq_generated b
 
 end Physis.C16
